@@ -105,16 +105,25 @@ def decGetSet (key value : Bytes) : Val → Int → Act :=
   decStrWrite (fun old => some (some (.str value), some 0, [Api.opSet key value false], .bytes old))
     (fun _ => .panic)
 
+/-- GETSET: an existing key is rewritten in place (a key transaction without constructor); a missing
+    one is published as a brand-new record (as SETNX does) and there is no old value to report -/
 theorem getSet_eq (s : MState) (now : Int) (key value : Bytes) :
-    Api.getSet s now key value = keyTx true (some (.str [])) .unit (fun s1 => (s1, .panic)) (decGetSet key value) s now key := by
+    Api.getSet s now key value =
+      if !(writeKey s now key none).2 then
+        (emit (signal (Api.setExp (Api.setVal (newKeyWith (writeKey s now key none).1 key none (.str []))
+            key (.str value)) key 0) key) (Api.opSet key value false), .bytes none)
+      else keyTx true none (.bytes none) (fun s1 => (s1, .panic)) (decGetSet key value) s now key := by
   unfold Api.getSet keyTx
-  simp only [if_true, Option.isNone_some, Bool.and_false, Bool.false_eq_true, if_false]
-  generalize writeKey s now key (some (.str [])) = r
+  simp only [if_true, Option.isNone_none, Bool.and_true]
+  generalize writeKey s now key none = r
   obtain ⟨s1, ok⟩ := r
-  simp only [Api.asStr]
-  cases valOf s1 key with
-  | none => rfl
-  | some v => cases v <;> rfl
+  cases ok with
+  | false => rfl
+  | true =>
+    simp only [Bool.not_true, Bool.false_eq_true, if_false, Api.asStr]
+    cases valOf s1 key with
+    | none => rfl
+    | some v => cases v <;> rfl
 
 def decAppend (key value : Bytes) : Val → Int → Act :=
   decStrWrite (fun v => some (some (Api.strVal (DsStr.append v value).1), none,
